@@ -10,7 +10,7 @@
 EXTENDS FedCatalog, Json, IOUtils
 
 EnvNat(s) == CHOOSE i \in 0..500 : ToString(i) = s
-E == EnvNat(IOEnv.C01_ENTRY)
+E == EnvNat(IOEnv.C01_ENTRY)               \* catalog entry, 0 = all entries (chosen by the initial state)
 MaxDepth == EnvNat(IOEnv.C01_MAXDEPTH)       \* nesting of object fields
 MaxWidth == EnvNat(IOEnv.C01_MAXWIDTH)       \* selections per selection set
 MaxSize == EnvNat(IOEnv.C01_MAXSIZE)         \* selections per operation
@@ -19,11 +19,10 @@ MaxAlias == EnvNat(IOEnv.C01_MAXALIAS)       \* aliases per operation
 MaxFrags == EnvNat(IOEnv.C01_MAXFRAGS)       \* inline / named fragments per operation
 Ordered == EnvNat(IOEnv.C01_ORDERED) = 1     \* canonical field order only (BFS), any order (simulate)
 
-Ent == Catalog[E]
-Sup == Supers[E]
-
-VARIABLES stack, frs, cnt, phase, asg
-gvars == <<stack, frs, cnt, phase, asg>>
+VARIABLES gent, stack, frs, cnt, phase, asg
+gvars == <<gent, stack, frs, cnt, phase, asg>>
+Ent == Catalog[gent]
+Sup == Supers[gent]
 
 \* ------------------------------------------------------------------ menus
 Composite(tn) == IsType(Sup, tn)
@@ -61,7 +60,7 @@ AddTypename ==
   /\ phase = "build" /\ Room /\ PosOK(0) /\ KeyFree("__typename") /\ Cur.ty # "Query"
   /\ stack' = Push(Field("__typename", "", <<>>, <<>>, <<>>), 0)
   /\ cnt' = Bump("", <<>>, 0)
-  /\ UNCHANGED <<frs, phase, asg>>
+  /\ UNCHANGED <<gent, frs, phase, asg>>
 
 AddLeaf ==
   /\ phase = "build" /\ Room
@@ -72,7 +71,7 @@ AddLeaf ==
             /\ KeyFree(IF alias = "" THEN fd.name ELSE alias)
             /\ stack' = Push(Field(fd.name, alias, args, dirs, <<>>), p)
             /\ cnt' = Bump(alias, dirs, 0)
-  /\ UNCHANGED <<frs, phase, asg>>
+  /\ UNCHANGED <<gent, frs, phase, asg>>
 
 \* an object field may be selected twice with the same response key (field merging)
 OpenField ==
@@ -86,7 +85,7 @@ OpenField ==
                      => (Cur.sels[i].name = fd.name /\ Cur.sels[i].args = args)
             /\ stack' = Append(stack, Frame(fd.type.n, Field(fd.name, alias, args, dirs, <<>>)))
             /\ cnt' = Bump(alias, dirs, 0)
-  /\ UNCHANGED <<frs, phase, asg>>
+  /\ UNCHANGED <<gent, frs, phase, asg>>
 
 OpenFrag ==
   /\ phase = "build" /\ Room /\ cnt.frags < MaxFrags /\ FragDepth < 1 /\ Cur.ty # "Query"
@@ -94,7 +93,7 @@ OpenFrag ==
   /\ \E on \in FragConds(Cur.ty), dirs \in DirChoices, named \in BOOLEAN :
        /\ stack' = Append(stack, Frame(on, [Inline(on, dirs, <<>>) EXCEPT !.k = IF named THEN "n" ELSE "i"]))
        /\ cnt' = Bump("", dirs, 1)
-  /\ UNCHANGED <<frs, phase, asg>>
+  /\ UNCHANGED <<gent, frs, phase, asg>>
 
 \* ------------------------------------------------------------------ validity (conservative FieldsInSetCanMerge)
 RECURSIVE FlatScope(_, _, _)
@@ -123,7 +122,7 @@ Close ==
   /\ IF Len(stack) = 1
      THEN /\ ValidSel(frs, Cur.sels)
           /\ phase' = "vars"
-          /\ UNCHANGED <<stack, frs, cnt, asg>>
+          /\ UNCHANGED <<gent, stack, frs, cnt, asg>>
      ELSE LET h == Cur.hdr
               up == SubSeq(stack, 1, Len(stack) - 1)
               fname == "F" \o ToString(Len(frs) + 1)
@@ -132,7 +131,7 @@ Close ==
               p == IF h.k = "f" THEN (CHOOSE q \in DOMAIN FieldsOfType(up[Len(up)].ty) : FieldsOfType(up[Len(up)].ty)[q].name = h.name) ELSE 100
           IN /\ stack' = [up EXCEPT ![Len(up)].sels = Append(@, sel), ![Len(up)].lastp = p]
              /\ frs' = IF h.k = "n" THEN Append(frs, Frag(fname, h.on, Cur.sels)) ELSE frs
-             /\ UNCHANGED <<cnt, phase, asg>>
+             /\ UNCHANGED <<gent, cnt, phase, asg>>
 
 \* ------------------------------------------------------------------ variables
 RECURSIVE UsedIn(_)
@@ -154,9 +153,10 @@ Assign ==
   /\ phase = "vars"
   /\ \E a \in Assignments(UsedVars) : asg' = a
   /\ phase' = "emit"
-  /\ UNCHANGED <<stack, frs, cnt>>
+  /\ UNCHANGED <<gent, stack, frs, cnt>>
 
 GenInit ==
+  /\ gent \in (IF E = 0 THEN DOMAIN Catalog ELSE {E})
   /\ stack = <<Frame("Query", Root)>>
   /\ frs = <<>>
   /\ cnt = [size |-> 0, alias |-> 0, dirs |-> 0, frags |-> 0]
